@@ -23,6 +23,8 @@ def generator_sets(tier):
         'kill-self': ((( ('kill', 'self'),), None), ((), RET)),
         'kill-self-wait': (((('kill', 'self'),), 2), ((), RET)),
         'kill-self-return': (((), None), ((('kill', 'self'),), RET)),
+        'kill-start-self-return': (((), None), ((('kill', 'self'),
+                                                ('start', 'self')), RET)),
         'kill-other': (((('kill', 0),), None), ((('kill', 1),), 1),
                        ((), RET)),
         'start-other': (((('start', 0),), None), ((('start', 1),), None),
@@ -35,7 +37,8 @@ def generator_sets(tier):
     waiters = (script_from_yields((0.5, None)), script_from_yields((2,)),
                script_from_yields((1, None)))
     if tier == 'quick':
-        for name in ('kill-self-return', 'kill-other', 'kill-start-other'):
+        for name in ('kill-self-return', 'kill-start-self-return',
+                     'kill-other', 'kill-start-other'):
             sets[name] = (g1, script_from_yields((None, 1)), variants[name])
         sets['three-waiters'] = waiters
         return sets
